@@ -20,13 +20,13 @@ const B: &[&str] = &[
     "source_unreadable_path", "source_not_a_tzif_file", "source_garbage_text", "source_unset", "fallback_system_zone_named", "fallback_final_utc",
     "etc_localtime_symlink", "etc_localtime_regular_file", "etc_localtime_absent", "no_namespace_host_etc",
     "change_env_to_env", "change_env_to_unset", "change_unset_to_env", "change_valid_garbage_valid", "change_back_to_earlier_value",
-    "convert_must_be_current", "convert_either_admissible", "convert_fresh_thread", "convert_utc_to_local", "convert_local_to_utc", "stress_run",
+    "convert_must_be_current", "convert_either_admissible", "convert_fresh_thread", "convert_utc_to_local", "convert_local_to_utc", "stress_run", "polling_more_than_1s_after_change",
 ];
 const FLOOR: &[&str] = &[
     "source_absolute_path", "source_colon_absolute_path", "source_zone_name", "source_colon_zone_name", "source_posix_rule", "source_empty",
     "source_unreadable_path", "source_not_a_tzif_file", "source_garbage_text", "source_unset",
     "change_env_to_env", "change_env_to_unset", "change_unset_to_env", "change_valid_garbage_valid", "change_back_to_earlier_value",
-    "convert_must_be_current", "convert_either_admissible", "convert_fresh_thread", "convert_utc_to_local", "convert_local_to_utc",
+    "convert_must_be_current", "convert_either_admissible", "convert_fresh_thread", "convert_utc_to_local", "convert_local_to_utc", "polling_more_than_1s_after_change",
 ];
 
 fn bi(n: &str) -> usize {
@@ -318,7 +318,22 @@ fn gen_history(rng: &mut Rng, id: usize, etc: Etc, sources: &[Source], long_budg
     let mut cur = initial;
     let mut seen = vec![initial];
     while longs < long_budget {
-        match rng.below(7) {
+        match rng.below(8) {
+            7 => {
+                // polling: convert, change, then keep converting with every gap well under a second
+                // for more than a second - the conversions made >= 1 s after the change must be current
+                // (a refresh window that slides with every call would never notice the change)
+                let nxt = *rng.pick(&valid);
+                steps.push(conv(rng, false));
+                steps.push(set(nxt));
+                let k = 5 + rng.below(3);
+                for _ in 0..k {
+                    steps.push(Step::Sleep(230 + rng.below(120)));
+                    steps.push(conv(rng, false));
+                }
+                longs += 2;
+                cur = nxt;
+            }
             0 => {
                 // convert just before the change, then a long wait: must be current afterwards
                 let nxt = *rng.pick(&valid);
@@ -500,6 +515,7 @@ fn run_history(loc: &mut Local, ctx: &Ctx, cx: &Ctxs, h: &History) {
     // (state index, stamp_after) of main-thread conversions so far
     let mut main_convs: Vec<(usize, u128)> = Vec::new();
     let mut visited = vec![h.initial];
+    let mut last_change_ta: Option<u128> = None;
     let mut events_json: Vec<serde_json::Value> = Vec::new();
     for (idx, (step, line)) in h.steps.iter().zip(lines.iter()).enumerate() {
         let mut it = line.splitn(4, ' ');
@@ -527,6 +543,9 @@ fn run_history(loc: &mut Local, ctx: &Ctx, cx: &Ctxs, h: &History) {
                     loc.bucket(bi("change_back_to_earlier_value"));
                 }
                 visited.push(nxt);
+                if nxt != state {
+                    last_change_ta = Some(ta);
+                }
                 state = nxt;
             }
             Step::Sleep(_) => {}
@@ -567,6 +586,10 @@ fn run_history(loc: &mut Local, ctx: &Ctx, cx: &Ctxs, h: &History) {
                     loc.bucket(bi("convert_fresh_thread"));
                 } else if must_be_current {
                     loc.bucket(bi("convert_must_be_current"));
+                    // reached by polling: some earlier same-thread conversion is recent, yet the change is >= 1 s old
+                    if adm.len() == 1 && main_convs.last().map(|(_, ca)| *ca + 1_000_000_000 > tb).unwrap_or(false) && last_change_ta.map(|t| t + 1_000_000_000 <= tb).unwrap_or(false) {
+                        loc.bucket(bi("polling_more_than_1s_after_change"));
+                    }
                 } else {
                     loc.bucket(bi("convert_either_admissible"));
                 }
